@@ -63,7 +63,7 @@ def run_crosshair(job):
     if m:
         call = m.group(1)
         ok, err = _call_concrete(mod, fn, call)
-        rec = dict(harness=job['name'], obligation=fn, values=dict(call=call), choices={}, params={}, kind='crosshair', module='harness.c18')
+        rec = dict(harness=job['name'], obligation=fn, values=dict(call=call), choices={}, params={}, kind='crosshair', module='harness.c18', ch_module=mod)
         if ok is False:
             res['violations'].append(rec)
         else:
@@ -73,6 +73,18 @@ def run_crosshair(job):
         res['discharged'] = 1
         res['exhaustive'] = True
         res['samples'].append(dict(function=fn, verdict='Confirmed over all paths'))
+    elif re.search(r'error: (\w+): .* when calling (\w+\(.*\))', out):
+        # an exception other than the documented ones escapes the real code: replay the call un-instrumented
+        m3 = re.search(r'error: (\w+): .* when calling (\w+\(.*\))', out)
+        exc, call = m3.group(1), m3.group(2)
+        ok, err = _call_concrete(mod, fn, call)
+        rec = dict(harness=job['name'], obligation=fn, values=dict(call=call, exception=exc), choices={}, params={}, kind='crosshair',
+                   module='harness.c18', ch_module=mod)
+        if ok is None and err and exc in err:
+            res['violations'].append(rec)
+        else:
+            res['undecided'].append(dict(rec, why=f'CrossHair exception report did not reproduce ({ok}, {err})'))
+        res['samples'].append(dict(counterexample=call, exception=exc))
     elif 'error:' in out:
         m2 = re.search(r'error: (.*)', out)
         res['undecided'].append(dict(harness=job['name'], obligation=fn, why='CrossHair reported: ' + (m2.group(1)[:300] if m2 else '?')))
@@ -122,9 +134,9 @@ def _call_concrete(mod, fn, call):
 
 def replay(rec):
     call = rec['values']['call']
-    ok, err = _call_concrete('harness.c18_ch', rec['obligation'], call)
+    ok, err = _call_concrete(rec.get('ch_module', 'harness.c18_ch'), rec['obligation'], call)
     print(f"replay {call}: returns {ok} {err or ''}")
-    if ok is False:
+    if ok is False or (ok is None and rec['values'].get('exception') and rec['values']['exception'] in (err or '')):
         print(f"VIOLATION property={rec['property']} replay=evidence/replay/?")
         return 1
     return 0
